@@ -39,10 +39,13 @@ QUERIES = {
     'join': 'select a1, b2 join b on a1 == b1',
     'left-join': 'select a2, b1 left join b on a1 == b1 where b2 is None or b2 != a2',
     'runtime-error': 'select a1 where [0][len(a2)] == 0',
+    'distinct-len': 'select distinct len(a1), a2',
+    'distinct-nr0': 'select distinct NR * 0, a1',
 }
 
 ADAPTERS = '''
 from vf.refmodel import csvref
+from vf import csvh      # text-level model of the encoding layer (encode_*_stream := identity); `encoding` still reaches the BOM logic
 
 
 class MyIterator(rbql_engine.RBQLInputIterator):
@@ -122,6 +125,16 @@ def via_user_objects(q, T, B):
     return w.rows, w.header
 
 
+def via_csv_bom(q, T, B):
+    """The same CSV text behind a UTF-8 BOM, read as utf-8: the BOM is not data."""
+    text = chr(0xFEFF) + csvref.write_table(T, CSV_DLM, CSV_POLICY)
+    out = stubs.StubOut()
+    w = rbql_csv.CSVWriter(out, False, None, CSV_DLM, CSV_POLICY)
+    rbql_engine.query(q, rbql_csv.CSVRecordIterator(stubs.PieceIn([text]), 'utf-8', CSV_DLM, CSV_POLICY), w, [], CsvRegistry(B) if B is not None else None)
+    back = csvref.expected_read(out.text(), CSV_DLM, CSV_POLICY)
+    return back[1], None
+
+
 def via_csv(q, T, B):
     text = csvref.write_table(T, CSV_DLM, CSV_POLICY)
     out = stubs.StubOut()
@@ -142,7 +155,7 @@ def _adapter_obl(qname, a_rows, b_rows, timeout, which='via_table_adapters', csv
         params += p2
         pre += pb2
     pre += ['%s != 10 and %s != 13' % (n, n) for n, t_ in params if t_ == 'int'] + ['chr(10) not in %s and chr(13) not in %s' % (n, n) for n, t_ in params if t_ == 'str']
-    if which == 'via_csv' and csv[1] == 'simple':
+    if which in ('via_csv', 'via_csv_bom') and csv[1] == 'simple':
         pre += ['%s != 9' % n for n, _t in params]
     body = indent('''
 T = %s
@@ -305,6 +318,10 @@ def obligations(tier, seed):
             if not quick:
                 obs.append(_adapter_obl(qn, ['cc', 'cc', 'cz'], ['cc', 'cc'] if jn else None, t, which))
         obs.append(_adapter_obl(qn, ['cz'] if jn else ['cc'], ['cz'] if jn else None, t, 'via_csv', (',', 'quoted')))
+        if qn in ('proj-where', 'star-order', 'update', 'distinct-len'):
+            obs.append(_adapter_obl(qn, ['cc', 'cz'], None, t, 'via_csv_bom'))
+        if qn.startswith('distinct'):
+            obs.append(_adapter_obl(qn, ['cz', 'cz', 'cz'], None, t, 'via_csv', (',', 'quoted')))   # duplicates + cells the writer has to quote
         if 'a2' not in QUERIES[qn] and not jn and qn != 'except':
             # one-column tables whose cells may be EMPTY strings (an empty cell is written as a blank line and must come back as a record);
             # `* except a1` is left out: it yields zero-field records, which no CSV dialect can represent
